@@ -1999,22 +1999,28 @@ pub fn c13_script_bytes(script: &[ScriptStep]) -> (Vec<u8>, Vec<(KeyCode, KeySta
 fn c13_e2e_eval(layout: usize, s2: &[u8]) -> Result<Option<(usize, String, String)>, String> {
     let Some(s1) = sc::xlat_stream(s2) else { return Ok(None) };
     guard(|| {
+      // the hardware delivers frames: the same comparison with every byte handed over as its
+      // PS/2 word (Keyboard::add_word) instead of add_byte
+      for as_frames in [false, true] {
         let mut k2 = Keyboard::new(ScancodeSet2::new(), any_layout(layout), HandleControl::MapLettersToUnicode);
         let mut k1 = Keyboard::new(ScancodeSet1::new(), any_layout(layout), HandleControl::MapLettersToUnicode);
         let mut ev2 = Vec::new();
         let mut ev1 = Vec::new();
         for b in s2 {
-            if let Ok(Some(e)) = k2.add_byte(*b) {
+            let r = if as_frames { k2.add_word(crate::model::frame::encode(*b)) } else { k2.add_byte(*b) };
+            if let Ok(Some(e)) = r {
                 let d = k2.process_keyevent(e.clone());
                 ev2.push((e, d, mod_bits(k2.get_modifiers())));
             }
         }
         for b in &s1 {
-            if let Ok(Some(e)) = k1.add_byte(*b) {
+            let r = if as_frames { k1.add_word(crate::model::frame::encode(*b)) } else { k1.add_byte(*b) };
+            if let Ok(Some(e)) = r {
                 let d = k1.process_keyevent(e.clone());
                 ev1.push((e, d, mod_bits(k1.get_modifiers())));
             }
         }
+        let via = if as_frames { " (bytes delivered as PS/2 words)" } else { "" };
         for i in 0..ev2.len().max(ev1.len()) {
             let a = ev2.get(i);
             let b = ev1.get(i);
@@ -2026,11 +2032,12 @@ fn c13_e2e_eval(layout: usize, s2: &[u8]) -> Result<Option<(usize, String, Strin
                 return Some((
                     i,
                     format!("xlat:e2e:{}:event#{}:set2={}:set1={}", LAYOUT_NAMES[layout], i, f(a), f(b)),
-                    format!("layout {}: Set 2 stream [{}] and its i8042 translation [{}] diverge at event #{}: Set 2 gives {}, Set 1 gives {}", LAYOUT_NAMES[layout], hex(s2), hex(&s1), i, f(a), f(b)),
+                    format!("layout {}: Set 2 stream [{}] and its i8042 translation [{}]{} diverge at event #{}: Set 2 gives {}, Set 1 gives {}", LAYOUT_NAMES[layout], hex(s2), hex(&s1), via, i, f(a), f(b)),
                 ));
             }
         }
-        None
+      }
+      None
     })
 }
 
